@@ -119,6 +119,19 @@ func (st *State) timerReady(c *ChanObj) bool {
 	if c.Ready {
 		return true
 	}
+	if st.clock != nil && c.At != nil {
+		// symbolic time: has the clock reached the timer's deadline? Decided by the solver (both outcomes are explored
+		// when both are feasible), once per clock value; a timer that has expired stays expired
+		if c.AtReady {
+			return true
+		}
+		if c.AtVer == st.clockVer+1 {
+			return c.AtReady
+		}
+		c.AtVer = st.clockVer + 1
+		c.AtReady = st.branch(Cmp(">=", st.clock, c.At, true))
+		return c.AtReady
+	}
 	if !st.timersOn {
 		return false
 	}
